@@ -1,4 +1,5 @@
 import math
+import os
 from abc import ABC, abstractmethod
 from dataclasses import dataclass
 from functools import partial
@@ -11,6 +12,9 @@ from jax import jit, lax, random, vmap
 
 from ad_afqmc import linalg_utils, sr, wavefunctions
 from ad_afqmc.wavefunctions import wave_function
+
+# verification hooks (observation only): active when this variable is "1" AND the caller pre-seeded the keys
+_VERIF_HOOKS = os.environ.get("ANKIT76_AD_AFQMC_VERIF") == "1"
 
 
 @dataclass
@@ -118,6 +122,14 @@ class propagator(ABC):
         Returns:
             prop_data: dictionary containing the updated propagation data
         """
+        if _VERIF_HOOKS and "_verif_ovlp_err" in prop_data:
+            prop_data["_verif_ovlp_err"] = prop_data["_verif_ovlp_err"] + jnp.sum(
+                jnp.abs(
+                    prop_data["overlaps"]
+                    - trial.calc_overlap(prop_data["walkers"], wave_data)
+                )
+                ** 2
+            )
         force_bias = trial.calc_force_bias(prop_data["walkers"], ham_data, wave_data)
         field_shifts = -jnp.sqrt(self.dt) * (1.0j * force_bias - ham_data["mf_shifts"])
         shifted_fields = fields - field_shifts
@@ -145,6 +157,9 @@ class propagator(ABC):
             * overlaps_new
             / prop_data["overlaps"]
         )
+        if _VERIF_HOOKS and "_verif_imp_fun" in prop_data:
+            prop_data["_verif_imp_fun"] = imp_fun
+            prop_data["_verif_theta"] = theta
         imp_fun_phaseless = jnp.abs(imp_fun) * jnp.cos(theta)
         imp_fun_phaseless = jnp.array(
             jnp.where(jnp.isnan(imp_fun_phaseless), 0.0, imp_fun_phaseless)
